@@ -1051,6 +1051,35 @@ func messageTable(cs []codec) string {
 	return b.String()
 }
 
+// introConsts: constants used by IntroductionMessage.Verify (C25), read from the source text
+func introConsts() string {
+	grab := func(file, re string) string {
+		src, err := os.ReadFile(filepath.Join(repo, file))
+		if err != nil {
+			fail("%v", err)
+		}
+		m := regexp.MustCompile(re).FindAllSubmatch(src, -1)
+		if len(m) != 1 {
+			fail("%s: expected exactly one match of %s, found %d", file, re, len(m))
+		}
+		return string(m[0][1])
+	}
+	var b strings.Builder
+	b.WriteString("/-! ### constants of the introduction handshake (C25) -/\n")
+	fmt.Fprintf(&b, "def paramsMinBurnFactor : Nat := %s\n", grab("src/params/verify_txn.go", `(?m)^\s*MinBurnFactor uint32 = (\d+)$`))
+	fmt.Fprintf(&b, "def paramsMinTransactionSize : Nat := %s\n", grab("src/params/verify_txn.go", `(?m)^\s*MinTransactionSize uint32 = (\d+)$`))
+	fmt.Fprintf(&b, "def dropletExponent : Nat := %s\n", grab("src/util/droplet/droplet.go", `(?m)^\s*Exponent = (\d+)$`))
+	fmt.Fprintf(&b, "def useragentMaxLen : Nat := %s\n", grab("src/util/useragent/useragent.go", `(?m)^\s*MaxLen = (\d+)$`))
+	for _, c := range [][2]string{{"useragentIllegalChars", "IllegalChars"}, {"useragentNamePattern", "NamePattern"},
+		{"useragentVersionPattern", "VersionPattern"}, {"useragentRemarkPattern", "RemarkPattern"}, {"useragentPattern", "Pattern"}} {
+		v := grab("src/util/useragent/useragent.go", `(?m)^\s*`+c[1]+` = (.+)$`)
+		fmt.Fprintf(&b, "def %s : String := %s\n", c[0], strconv.Quote(v))
+	}
+	fmt.Fprintf(&b, "def useragentSanitizeRe : String := %s\n", strconv.Quote(grab("src/util/useragent/useragent.go", `(?m)^\s*illegalCharsSanitizeRe = (.+)$`)))
+	b.WriteString("\n")
+	return b.String()
+}
+
 func writeIfChanged(dst, content string) bool {
 	if old, err := os.ReadFile(dst); err == nil && string(old) == content {
 		return false
@@ -1108,6 +1137,7 @@ func main() {
 		fmt.Fprintf(&th, "theorem ty_%s_eq : ty_%s = Schemas.%s := by decide\n", id, id, e[1])
 	}
 	b.WriteString("\n" + messageTable(cs))
+	b.WriteString(introConsts())
 	b.WriteString("/-- all generated codecs: (name, schema, program) -/\ndef all : List (String × Ty × GenCodec) := [\n")
 	for i, c := range cs {
 		sep := ","
